@@ -46,12 +46,12 @@ def build(reg):
     FR = "self._fp == old(self._fp) and self._probs == old(self._probs) and self._motif_sizes == old(self._motif_sizes) and self._low_high_degree_bound == old(self._low_high_degree_bound)"
     SPL = "valid_tuples == valid_splits(k, len(self._probs)) and forall(j, 0, len(valid_tuples), len(valid_tuples[j]) == len(self._probs) and wdeg(valid_tuples[j], len(self._probs)) == k) and forall(a, 0, len(valid_tuples), forall(b, a + 1, len(valid_tuples), tuple_of(valid_tuples[a]) != tuple_of(valid_tuples[b])))"
     m.fn("JointDegreeSplitDegree.resolve_degree", params={"k": INT, "prob_overall_k": REAL}, opaque_arith=True, locals={"probabilities": LR},
-         requires={"args": "k >= 0 and len(self._probs) >= 1"},
+         requires={"args": "k >= 0 and len(self._probs) >= 1",
+                   "no_joint_degree_of_degree_k_stored_yet": "forall_elem(key, JD, implies(key in self._jdd, wdeg(key, len(self._probs)) != k))"},
          ensures={"the_splits_of_k": SPL,
                   "weights": "len(w0) == len(valid_tuples) and forall(j, 0, len(valid_tuples), w0[j] == wprod(self._probs, valid_tuples[j], len(valid_tuples[j]))) and total == lsum(w0)",
-                  "each_split_gets_its_share_of_the_mass_of_k": "forall(j, 0, len(valid_tuples), (" + KEY.format(j="j") + " in self._jdd) and self._jdd[" + KEY.format(j="j") + "] == prob_overall_k * (w0[j] / total), trigger=valid_tuples[j])",
+                  "each_split_gets_its_share_of_the_mass_of_k": "forall(j, 0, len(valid_tuples), self._jdd.get(" + KEY.format(j="j") + ", 0.0) == prob_overall_k * (w0[j] / total), trigger=valid_tuples[j])",      # (a share that is exactly 0 may be stored as 0.0 or not at all)
                   "other_degrees_untouched": "forall_elem(key, JD, implies(forall(j, 0, len(valid_tuples), key != " + KEY.format(j="j") + ", trigger=valid_tuples[j]), ((key in self._jdd) == (key in old(self._jdd))) and self._jdd[key] == old(self._jdd)[key]))",
-                  "exported.keys_present": "forall(j, 0, len(valid_splits(k, len(self._probs))), tuple_of(valid_splits(k, len(self._probs))[j]) in self._jdd, trigger=valid_splits(k, len(self._probs))[j])",
                   "exported.other_degrees_untouched": "forall_elem(key, JD, implies(forall(j, 0, len(valid_splits(k, len(self._probs))), key != tuple_of(valid_splits(k, len(self._probs))[j]), trigger=valid_splits(k, len(self._probs))[j]), ((key in self._jdd) == (key in old(self._jdd))) and self._jdd[key] == old(self._jdd)[key]))",
                   "frame": FR},
          raises={"ZeroDivisionError": dict(when="True", only=False)},
@@ -60,7 +60,7 @@ def build(reg):
                         "w0": "forall(j, 0, len(valid_tuples), w0[j] == wprod(self._probs, valid_tuples[j], len(valid_tuples[j]))) and total == lsum(w0)", "splits": SPL, "frame": "self == old(self)"}),
                 2: dict(inv={"len": "len(probabilities) == len(w0) and len(w0) == len(valid_tuples)", "shares": "forall(j, 0, len(w0), probabilities[j] == w0[j] / total)", "splits": SPL, "frame": FR,
                              "w0": "forall(j, 0, len(valid_tuples), w0[j] == wprod(self._probs, valid_tuples[j], len(valid_tuples[j]))) and total == lsum(w0)",
-                             "written": "forall(j, 0, IT, (" + KEY.format(j="j") + " in self._jdd) and self._jdd[" + KEY.format(j="j") + "] == prob_overall_k * (w0[j] / total), trigger=valid_tuples[j])",
+                             "written": "forall(j, 0, IT, self._jdd.get(" + KEY.format(j="j") + ", 0.0) == prob_overall_k * (w0[j] / total), trigger=valid_tuples[j])",
                              "others": "forall_elem(key, JD, implies(forall(j, 0, IT, key != " + KEY.format(j="j") + ", trigger=valid_tuples[j]), ((key in self._jdd) == (key in old(self._jdd))) and self._jdd[key] == old(self._jdd)[key]))"})})
     # ---- exported clauses of resolve_degree needed by its callers
     R = m.fns["JointDegreeSplitDegree.resolve_degree"]
@@ -71,32 +71,33 @@ def build(reg):
     reg.lemma("pure_first_topology_degree", vars={"k": INT, "m": INT, "n": INT}, induct="n", stmt="implies(n >= 1, wdeg(pure_first(k, m), n) == k)")
     T_ = "len(self._probs)"
     KEYKJ = f"tuple_of(valid_splits(kk, {T_})[j])"
-    BLOCKS = f"forall(kk, lo0, IT, forall(j, 0, len(valid_splits(kk, {T_})), ({KEYKJ} in self._jdd) and self._jdd[{KEYKJ}] == blk[kk][{KEYKJ}], trigger=valid_splits(kk, {T_})[j]))"
+    BLOCKS = f"forall(kk, lo0, IT, forall(j, 0, len(valid_splits(kk, {T_})), self._jdd.get({KEYKJ}, 0.0) == blk[kk].get({KEYKJ}, 0.0), trigger=valid_splits(kk, {T_})[j]))"
+    ADMB = f"forall(kk, lo0, IT, forall(j, 0, len(valid_splits(kk, {T_})), wdeg(valid_splits(kk, {T_})[j], {T_}) == kk, trigger=valid_splits(kk, {T_})[j]))"
     RANGE = f"forall_elem(key, JD, implies(key in self._jdd, lo0 <= wdeg(key, {T_}) and wdeg(key, {T_}) < IT))"
     m.fn("JointDegreeSplitDegree.create_jdd", params={"blk": ArrT(INT, JDD)}, ghost=["blk"], assigns=["_jdd"],
          requires={"args": "self._low_high_degree_bound[0] >= 0 and len(self._probs) >= 1"},
-         ensures={"every_degree_of_the_range_keeps_its_block": BLOCKS.replace("IT", "hi0").replace("self._jdd[", "pre[").replace(" in self._jdd", " in pre"),
+         ensures={"every_degree_of_the_range_keeps_its_block": BLOCKS.replace("IT", "hi0").replace("self._jdd.get(", "pre.get("),
                   "mass_only_on_degrees_of_the_range": RANGE.replace("< IT", "<= hi0"),      # "every k in the degree range": whether the upper bound itself belongs to the range is left open by the statement
                   "normalised": "keyset_eq(self._jdd, pre) and forall_elem(key, JD, implies(key in pre, self._jdd[key] == pre[key] / msum(pre))) and implies(exists_elem(key, JD, key in pre), msum(self._jdd) == 1)", "frame": FR},
          raises={"ZeroDivisionError": dict(when="True", only=False)},
          loops={0: dict(snap={"lo0": "self._low_high_degree_bound[0]", "hi0": "self._low_high_degree_bound[1]"},
-                        inv={"blocks": BLOCKS, "range": RANGE, "frame": FR + " and lo0 == self._low_high_degree_bound[0] and hi0 == self._low_high_degree_bound[1] and lo0 >= 0"},
+                        inv={"blocks": BLOCKS, "splits_of_earlier_degrees_have_that_degree": ADMB, "range": RANGE, "frame": FR + " and lo0 == self._low_high_degree_bound[0] and hi0 == self._low_high_degree_bound[1] and lo0 >= 0"},
                         ghost_end=["blk[IT] = self._jdd"], exit_snap={"pre": "self._jdd"})})
     md = reg.module("gcmpy/joint_degree/joint_degree_loaders/joint_degree_delta.py")
     md.cls("JointDegreeDelta", fields={"_jdd": JDD, "_motif_sizes": LInt, "_fp": Fn, "_probs": LR, "_low_high_degree_bound": Bound, "_target_k": INT}, bases=["JointDegreeSplitDegree"])
     N_ = "len(self._motif_sizes)"
     PURE = f"forall(kk, lo0, IT, implies(kk != self._target_k, (pure_first(kk, {N_}) in self._jdd) and self._jdd[pure_first(kk, {N_})] == fp_at(self._fp, kk)))"
-    SPLIT_AT_TARGET = (f"implies(lo0 <= self._target_k and self._target_k < IT, forall(j, 0, len(valid_splits(self._target_k, {T_})), (tuple_of(valid_splits(self._target_k, {T_})[j]) in self._jdd) and "
-                       f"self._jdd[tuple_of(valid_splits(self._target_k, {T_})[j])] == blk[self._target_k][tuple_of(valid_splits(self._target_k, {T_})[j])], trigger=valid_splits(self._target_k, {T_})[j]))")
+    SPLIT_AT_TARGET = (f"implies(lo0 <= self._target_k and self._target_k < IT, forall(j, 0, len(valid_splits(self._target_k, {T_})), "
+                       f"self._jdd.get(tuple_of(valid_splits(self._target_k, {T_})[j]), 0.0) == blk[self._target_k].get(tuple_of(valid_splits(self._target_k, {T_})[j]), 0.0), trigger=valid_splits(self._target_k, {T_})[j]))")
     FRD = FR + " and self._target_k == old(self._target_k)"
     md.fn("JointDegreeDelta.create_jdd", params={"blk": ArrT(INT, JDD)}, ghost=["blk"], assigns=["_jdd"],
           requires={"args": "self._low_high_degree_bound[0] >= 0 and len(self._probs) >= 1 and len(self._motif_sizes) == len(self._probs)"},
           ensures={"other_degrees_are_pure_first_topology_degree": PURE.replace("IT", "hi0").replace("self._jdd[", "pre[").replace(" in self._jdd", " in pre"),
-                   "target_degree_keeps_its_split": SPLIT_AT_TARGET.replace("IT", "hi0").replace("self._jdd[", "pre[").replace(" in self._jdd", " in pre"),
+                   "target_degree_keeps_its_split": SPLIT_AT_TARGET.replace("IT", "hi0").replace("self._jdd.get(", "pre.get("),
                    "mass_only_on_degrees_of_the_range": RANGE.replace("< IT", "<= hi0"),      # "every k in the degree range": whether the upper bound itself belongs to the range is left open by the statement
                    "normalised": "keyset_eq(self._jdd, pre) and forall_elem(key, JD, implies(key in pre, self._jdd[key] == pre[key] / msum(pre))) and implies(exists_elem(key, JD, key in pre), msum(self._jdd) == 1)", "frame": FRD},
           raises={"ZeroDivisionError": dict(when="True", only=False)},
           loops={0: dict(snap={"lo0": "self._low_high_degree_bound[0]", "hi0": "self._low_high_degree_bound[1]"},
-                         inv={"pure": PURE, "split": SPLIT_AT_TARGET, "range": RANGE, "frame": FRD + " and lo0 == self._low_high_degree_bound[0] and hi0 == self._low_high_degree_bound[1] and lo0 >= 0"},
+                         inv={"pure": PURE, "split": SPLIT_AT_TARGET, "splits_of_the_target_have_that_degree": f"implies(lo0 <= self._target_k and self._target_k < IT, forall(j, 0, len(valid_splits(self._target_k, {T_})), wdeg(valid_splits(self._target_k, {T_})[j], {T_}) == self._target_k, trigger=valid_splits(self._target_k, {T_})[j]))", "range": RANGE, "frame": FRD + " and lo0 == self._low_high_degree_bound[0] and hi0 == self._low_high_degree_bound[1] and lo0 >= 0"},
                          ghost_end=["blk[IT] = self._jdd"], exit_snap={"pre": "self._jdd"})})
     return ["JointDegreeSplitDegree.calc_prob_of_joint_degree", "JointDegreeSplitDegree.resolve_degree", "JointDegreeSplitDegree.create_jdd", "JointDegreeDelta.create_jdd"]
